@@ -456,7 +456,7 @@ package raft
 // (r.snaps.index + t.threshold, r.configs.Committed -- both read at REQUEST time) are therefore not
 // observable in a postcondition; see C12.membership of doTakeSnapshot.
 //@ func (*Raft).onTakeSnapshot
-//@   props C09 C12 C19
+//@   props C08 C09 C12 C19
 // what the snapshot goroutine is started with is observable (goarg): the minimum index the FSM must have
 // reached and the COMMITTED configuration as the label's membership (C12, C19)
 //@   ensures [C12+C19.request-arguments] old(r.snapTakenCh == nil) && old(r.snaps.index) + t.threshold < 18446744073709551616 ==> goarg(1, 1) == old(r.snaps.index) + t.threshold && goarg(1, 2) == old(r.configs.Committed)
